@@ -60,6 +60,9 @@ def returned_elements(f, cfg):
         elif isinstance(st, ast.AugAssign) and isinstance(st.target, ast.Name) and st.target.id == R and isinstance(st.op, ast.Add) \
                 and isinstance(st.value, ast.List):
             out += [(e, st, "appended") for e in st.value.elts]
+        elif isinstance(st, ast.Expr) and isinstance(st.value, ast.Call) and isinstance(st.value.func, ast.Attribute) and st.value.func.attr == "append" \
+                and isinstance(st.value.func.value, ast.Name) and st.value.func.value.id == R and len(st.value.args) == 1:
+            out.append((st.value.args[0], st, "appended"))          # R.append(x)  ==  R += [x]
     return R, out
 
 
@@ -137,6 +140,10 @@ def infer_dependencies(pm, K):
                 d = expr_deps(st.value)
                 has_relu = any(isinstance(n, ast.Call) and (call_name(n) or "").split(".")[-1] == "maximum" for n in ast.walk(st.value))
                 for t in st.targets:
+                    if isinstance(t, (ast.Tuple, ast.List)):
+                        for e_ in t.elts:
+                            if isinstance(e_, ast.Name):
+                                deps[e_.id] = d
                     if isinstance(t, ast.Name):
                         deps[t.id] = d
                         if has_relu:
@@ -148,8 +155,22 @@ def infer_dependencies(pm, K):
             elif isinstance(st, ast.If):
                 walk(st.body)
                 walk(st.orelse)
+            elif isinstance(st, ast.For):
+                # the loop variables carry the dependencies of what is iterated over; list growth inside the loop carries those of what is added
+                d = expr_deps(st.iter)
+                for n_ in ast.walk(st.target):
+                    if isinstance(n_, ast.Name):
+                        deps[n_.id] = d
+                walk(st.body)
+                walk(st.orelse)
+            elif isinstance(st, ast.AugAssign) and isinstance(st.target, ast.Name):
+                visit_products(st.value)
+                deps[st.target.id] = deps.get(st.target.id, set()) | expr_deps(st.value)
             elif isinstance(st, ast.Expr):
                 visit_products(st.value)
+                c_ = st.value
+                if isinstance(c_, ast.Call) and isinstance(c_.func, ast.Attribute) and c_.func.attr in ("append", "extend") and isinstance(c_.func.value, ast.Name) and c_.args:
+                    deps[c_.func.value.id] = deps.get(c_.func.value.id, set()) | expr_deps(c_.args[0])
     walk(f.body)
     relu = {}
     for v, d in relu_vars.items():
